@@ -10,4 +10,5 @@ let table : (Stdlib.String.t * (z list -> z list)) list = [
   "c08rt", c08rt_entry;
   "c18", c18_entry;
   "c18s", c18s_entry;
+  "c03", c03_entry;
 ]
